@@ -154,7 +154,10 @@ func (g *Gen) loopWrites(li *loopInfo) (objs []string, regions []region, allocs 
 		}
 		addRoot(v)
 	}
-	for b := range li.body {
+	for _, b := range g.fn.Blocks {
+		if !li.body[b] {
+			continue
+		}
 		for _, ins := range b.Instrs {
 			switch x := ins.(type) {
 			case *ssa.Store:
@@ -369,7 +372,10 @@ func (g *Gen) loopEntryEdges(li *loopInfo, edges []inEdge) {
 		}
 		allocs = true
 	} else {
-		for srt := range li.unknownSorts {
+		for _, srt := range g.sorts {
+			if !li.unknownSorts[srt] {
+				continue
+			}
 			if _, have := g.heap[srt]; have {
 				g.heap[srt] = g.freshConst("Hloopsort"+srt, g.heapSort(srt))
 				g.eng.note(g, fmt.Sprintf("loop %d: all %s cells havocked (write through a pointer computed inside the loop)", li.ordinal, srt))
@@ -397,7 +403,7 @@ func (g *Gen) loopEntryEdges(li *loopInfo, edges []inEdge) {
 		g.nextobj = g.freshConst("nextobj_loop", "Int")
 		g.assumeRaw(fmt.Sprintf("(>= %s %s)", g.nextobj, preNext))
 	}
-	for k := range g.ghost {
+	for _, k := range sortedKeys(g.ghost) {
 		if g.eng.ghostLoopHavoc(g, li, k) {
 			g.ghost[k] = g.freshConst("gh_"+k, g.ghostSortOf(k))
 		}
@@ -1361,7 +1367,7 @@ func (g *Gen) atPoint(kind, callee string, ins ssa.Instruction, pos token.Pos) {
 				nv.S = nil
 				for i, t := range v.S {
 					srt := "Int"
-					if v.Sort == "Bool" || v.Sort == "Fp" || v.Sort == "Fr" || v.Sort == "Bytes" {
+					if v.Sort == "Bool" || v.Sort == "Fp" || v.Sort == "Fr" || v.Sort == "Bytes" || v.Sort == "G" || strings.HasPrefix(v.Sort, "(Array") {
 						srt = v.Sort
 					} else if v.Agg && v.T != nil {
 						srt = g.lay.Cells(v.T)[i].Sort
@@ -1544,7 +1550,7 @@ func (g *Gen) atLoopBody(li *loopInfo, at ssa.Instruction) {
 				nv.S = nil
 				for i, t := range v.S {
 					srt := "Int"
-					if v.Sort == "Bool" || v.Sort == "Fp" || v.Sort == "Fr" || v.Sort == "Bytes" || v.Sort == "G" {
+					if v.Sort == "Bool" || v.Sort == "Fp" || v.Sort == "Fr" || v.Sort == "Bytes" || v.Sort == "G" || strings.HasPrefix(v.Sort, "(Array") {
 						srt = v.Sort
 					} else if v.Agg && v.T != nil {
 						srt = g.lay.Cells(v.T)[i].Sort
